@@ -923,12 +923,37 @@ def rule_block_context(model):
                 if isinstance(x, ast.Name) and isinstance(x.ctx, ast.Store):
                     assigned.add(x.id)
             for c in ast.walk(lp):
-                if isinstance(c, ast.Call) and \
-                        isinstance(c.func, ast.Attribute) and \
-                        c.func.attr in ('_parseTag', 'parseTag') and \
+                if not (isinstance(c, ast.Call) and
+                        isinstance(c.func, ast.Attribute) and
+                        norm(c.func.value) == 'self'):
+                    continue
+                ctx_args = None
+                if c.func.attr in ('_parseTag', 'parseTag') and \
                         len(c.args) >= 2:
-                    n += 1
                     ctx_args = c.args[1:3]
+                else:
+                    # a wrapper method that forwards its parameters to the
+                    # classifier: map the forwarded ones back to this call
+                    w = S.methods.get(c.func.attr)
+                    if w is not None and not any(
+                            isinstance(x, (ast.While, ast.For))
+                            for x in own_nodes(w.node)):
+                        wps = w.params()[1:]
+                        for ic in own_nodes(w.node):
+                            if isinstance(ic, ast.Call) and \
+                                    isinstance(ic.func, ast.Attribute) and \
+                                    ic.func.attr in ('_parseTag',
+                                                     'parseTag') and \
+                                    len(ic.args) >= 2:
+                                ctx_args = []
+                                for a in ic.args[1:3]:
+                                    if isinstance(a, ast.Name) and \
+                                            a.id in wps and \
+                                            wps.index(a.id) < len(c.args):
+                                        ctx_args.append(
+                                            c.args[wps.index(a.id)])
+                if ctx_args:
+                    n += 1
                     bad = [a for a in ctx_args for x in ast.walk(a)
                            if isinstance(x, ast.Name) and x.id in assigned]
                     r.instance(fi.where, c, 'opening-tag context' if not bad
